@@ -502,6 +502,44 @@ def check_seek(ctx, F):
         ctx.bad('R6', 'floor: Seek impls of provided backends', 'backends', 'only %d found (4 expected: Cursor, Vec, SmallVec, Reverse)' % n, key='R6/floor/seek')
 
 
+def check_positional_ctors(ctx, F):
+    """Constructors that take a position accept exactly what seek accepts (p <= len): a position pos() can report and
+    seek() can restore must also be usable to re-open the buffer."""
+    n = 0
+    for b in F.bodies:
+        if b.promoted is not None or b.dk != 'AssocFn' or b.self_adt != CURSOR or not (b.name or '').startswith('new_at_pos') or '::tests::' in b.defpath:
+            continue
+        n += 1
+        ev, paths = rules.evaluate(b)
+        ctx.touch(b)
+        key = 'R6/ctor-position/%s' % b.defpath
+        role = 'positional constructor accepts exactly the positions seek accepts'
+        bad = None
+        n_ok = n_err = 0
+        for r in paths or []:
+            if r.end != 'return':
+                continue
+            sh = rules.ret_shape(r.ret)
+            d = rules.path_dbm(r)
+            lens = {x for t, v, _ in r.preds for x in sym.subterms(t) if isinstance(x, tuple) and x and x[0] == 'len'}
+            if sh[0] == 'Ok':
+                n_ok += 1
+                if not any(d.entails_le(('arg', 2), L) for L in lens):
+                    bad = 'an accepted position is not proven <= len'
+            elif sh[0] == 'Err':
+                n_err += 1
+                if not any(d.entails_le(L, ('arg', 2), strict=True) for L in lens):
+                    bad = 'a rejected position is not proven > len: the one-past-the-end position len, which pos() reports after the last word and seek() accepts, is refused'
+        if not bad and (not n_ok or not n_err):
+            bad = 'no %s path' % ('accepting' if not n_ok else 'rejecting')
+        if bad:
+            ctx.bad('R6', role, b.defpath, bad, key=key, loc=rules.loc(b))
+        else:
+            ctx.ok('R6', role, b.defpath, 'Ok => pos <= len; Err => pos > len', key=key)
+    if n < 2:
+        ctx.unresolved('R6', 'positional constructor accepts exactly the positions seek accepts', CURSOR, 'only %d positional constructors found (2 confirmed by reading)' % n, key='R6/ctor-position/floor')
+
+
 # ---------------------------------------------------------------- clause 5/6
 
 def check_into_reversed(ctx, F):
@@ -677,6 +715,7 @@ def run(ctx):
         check_invariant(ctx, F)
         check_contracts(ctx, F)
         check_seek(ctx, F)
+        check_positional_ctors(ctx, F)
         check_into_reversed(ctx, F)
         check_sticky_and_delegation(ctx, F)
     ctx.assume('SafeBuf contract: as_ref()/as_mut() of a SafeBuf never shrink (unsafe trait, implementors are std types only; checked under C20)')
